@@ -180,7 +180,7 @@ PROPERTIES = {
               "(see evidence for the clauses present in this run).",
         note="number parsing (float/int of a token) is the identity on the token value; Gaussian-moment / Hankel / sphere-moment integral tables "
              "are assumed lemmas; floats as reals",
-        modules=["contracts.c12_gth", "contracts.c12_proj", "contracts.c12_loc"],
+        modules=["contracts.c12_gth", "contracts.c12_proj", "contracts.c12_loc", "contracts.c12_nonloc"],
         level="proof",
         trusted_base=["ast (parser)", "in-house AST->z3 symbolic executor (engine Z)", "engine A for the closed forms"],
         assumptions=["float(token)/int(token) return the token's value", "assumed integral tables (listed per obligation)"],
